@@ -98,14 +98,51 @@ class Scripted:
         return self._pick(menu, ("randint", a, b))
 
     def uniform(self, a, b):
+        # exactly what random.uniform computes, a + (b - a) * random(), for random() at its two
+        # extremes (0.0 and 1 - 2**-53), the middle and one seeded interior point - so that a span
+        # that overflows, or an end point overshot by rounding, shows as it would in production
         menu = []
-        for x in (a, b, (a + b) / 2):
-            if x not in menu:
+        us = (0.0, 1.0 - 2.0 ** -53, 0.5, (_mix(self.seed_value, a, b) % (2 ** 53)) / 2.0 ** 53)
+        for u in us:
+            x = a + (b - a) * u
+            if not any(x == y or (x != x and y != y) for y in menu):
                 menu.append(x)
         return self._pick(menu, ("uniform", a, b))
 
     def random(self):
-        return self._pick([0.0, 0.5, 0.999999], ("random",))
+        # not used by d42 today; a rewrite of Random on top of random() meets the extremes, the
+        # middle, two non-dyadic interior points and one seeded point
+        menu = [0.0, 0.5, 1.0 - 2.0 ** -53, 0.1, 0.7, 2.0 ** -53]
+        x = (_mix(self.seed_value, "random") % (2 ** 53)) / 2.0 ** 53
+        if x not in menu:
+            menu.append(x)
+        return self._pick(menu, ("random",))
+
+    def randrange(self, start, stop=None, step=1):
+        if stop is None:
+            start, stop = 0, start
+        n = len(range(start, stop, step))
+        if n <= 0:
+            raise ValueError(f"empty range for randrange({start}, {stop}, {step})")
+        return start + step * (self.randint(0, n - 1))
+
+    def getrandbits(self, k):
+        return self.randint(0, (1 << k) - 1) if k > 0 else 0
+
+    def randbytes(self, n):
+        return self.getrandbits(n * 8).to_bytes(n, "little")
+
+    def sample(self, population, k):
+        pool = list(population)
+        if k > len(pool):
+            raise ValueError("Sample larger than population or is negative")
+        out = []
+        for _ in range(k):
+            out.append(pool.pop(self.randint(0, len(pool) - 1)))
+        return out
+
+    def choices(self, population, weights=None, *, cum_weights=None, k=1):
+        return [self.choice(list(population)) for _ in range(k)]
 
     def choice(self, seq):
         n = len(seq)
